@@ -20,31 +20,29 @@ Theorem C07_fail_closed : forall (tp : string) (grace now timeout : Z) (o : orac
 Proof. exact gc_safe_all_faults. Qed.
 Print Assumptions C07_fail_closed.
 
-(* Every damage class of a reachable manifest list (missing; or present but not parseable as a list: garbage, empty,
-   truncated Avro, a file of the other kind) aborts in the list phase having deleted nothing -- under ANY additional
-   faults; likewise for every reachable manifest (the abort may come one phase earlier if a fault hits a list). *)
+(* Every damage class of a reachable manifest list or manifest (missing; or present but not parseable as what it must
+   be: garbage, empty, truncated Avro, a file of the other kind) aborts before the first sweep having deleted nothing --
+   under ANY additional faults, and whichever of the two preparatory phases the source runs first. *)
 Theorem C07_damage : forall (tp : string) (grace now timeout : Z) (o : oracle) (snaps : list string) (st : store) (k : key),
   wf_store snaps st ->
-  (ref_list snaps k -> damaged_list st k ->
-     r_out (gc_run tp grace now timeout o snaps st) = Aborted PhLists /\ r_deleted (gc_run tp grace now timeout o snaps st) = []) /\
-  (ref_manifest snaps st k -> damaged_manifest st k ->
-     (r_out (gc_run tp grace now timeout o snaps st) = Aborted PhLists \/ r_out (gc_run tp grace now timeout o snaps st) = Aborted PhManifests)
-     /\ r_deleted (gc_run tp grace now timeout o snaps st) = []).
+  (ref_list snaps k /\ damaged_list st k) \/ (ref_manifest snaps st k /\ damaged_manifest st k) ->
+  aborted_before_sweep (gc_run tp grace now timeout o snaps st) /\ r_deleted (gc_run tp grace now timeout o snaps st) = [].
 Proof. exact damage_aborts. Qed.
 Print Assumptions C07_damage.
 
-(* Transient failures: a collection that gets past the reachability phase read every reachable list and manifest with no
-   effective fault at all -- the only fault a successful read can have absorbed is an OSError / garbage on open_file of
-   a file that is in the legacy JSON format anyway (the Avro attempt fails either way and the JSON read was fault-free).
-   Equivalently: any other fault on any exists / open_file / read_file of a reachable list or manifest aborts. *)
+(* Transient failures: a collection that gets as far as the sweeps read every reachable list and manifest with no
+   effective fault at all (on a store that had lost at most abandoned markers) -- the only fault a successful read can
+   have absorbed is an OSError / garbage on open_file of a file that is in the legacy JSON format anyway (the Avro
+   attempt fails either way and the JSON read was fault-free).  Equivalently: any other fault on any exists / open_file /
+   read_file of a reachable list or manifest aborts before the first delete. *)
 Theorem C07_transient : forall (tp : string) (grace now timeout : Z) (o : oracle) (snaps : list string) (st : store),
-  r_out (gc_run tp grace now timeout o snaps st) <> Aborted PhLists ->
-  r_out (gc_run tp grace now timeout o snaps st) <> Aborted PhManifests ->
-  exists mpaths g1 entries g2,
-    read_all WList o (mkG 0 st []) (norm_set tp snaps) = (Some mpaths, g1)
+  wf_store snaps st ->
+  ~ aborted_before_sweep (gc_run tp grace now timeout o snaps st) ->
+  exists g mpaths g1 entries g2,
+    only_markers_removed now timeout st (g_store g)
+    /\ read_all WList o g (norm_set tp snaps) = (Some mpaths, g1)
     /\ read_all WManifest o g1 (norm_set tp mpaths) = (Some entries, g2)
-    /\ (forall c f, In (c, Some f) (g_trace g1) -> absorbed_open st WList c f)
-    /\ (forall c f, In (c, Some f) (g_trace g2) -> absorbed_open st WList c f \/ absorbed_open st WManifest c f).
+    /\ trace_ext (g_store g) WList g g1 /\ trace_ext (g_store g) WManifest g1 g2.
 Proof. exact reach_phase_fault_free. Qed.
 Print Assumptions C07_transient.
 
@@ -65,7 +63,8 @@ Print Assumptions C07_marker_keep.
    read of the live transaction's marker leaves its file protected while the orphans are still removed; and with the
    manifest m2 replaced by garbage the run aborts in the manifest phase. *)
 Require Import DS.Props.C05.
-Definition run_with (o : oracle) (st : store) := gc_run "data" 1000 1000000 86400000 o ex_snaps st.
+(* the phase order of the code as it stands (reachability first) is fixed here so that the call numbers are meaningful *)
+Definition run_with (o : oracle) (st : store) := gc_run_from false "data" 1000 1000000 86400000 o ex_snaps (mkG 0 st []).
 Definition ex_damaged : store :=
   map (fun p => if String.eqb (fst p) "metadata/manifests/m2.avro" then (fst p, mkObj 1000 CGarbage) else p) ex_st.
 Example C07_nonvacuous :
